@@ -74,6 +74,8 @@ def validate(chk, path, name, module="Trace_Lang", consts=None, fac="UStdFacR", 
     cfg = os.path.join(w, "%s.cfg" % module)
     if module == "Trace_Parse":
         write_cfg(cfg, dict(PARSER_REPAIRED, **(consts or {})), fac=None)
+    elif module == "Trace_Display":
+        write_cfg(cfg, dict(consts or {}), fac=None)
     else:
         write_cfg(cfg, dict(DEFAULT_CONSTS, **(consts or {})), fac=fac)
     if len(recs) > chunk:      # balance the chunks over the parallel TLC processes
